@@ -62,6 +62,36 @@ func c03Alphabet() []Op {
 	return ops
 }
 
+// c03SplitPool (family 1): routes below one parameter whose following literal text shares a prefix, so that the text
+// is split between nodes while both are live and the question is what is left when one of them goes again.
+var c03SplitPool = []string{"/p/{x}/bc", "/p/{x}/bd", "/p/{x}/b", `/p/{x:\d+}/bc`, `/p/{x:\d+}/bd`, "/p/{x}"}
+
+func c03SplitAlphabet() []Op {
+	var ops []Op
+	for _, p := range c03SplitPool {
+		ops = append(ops, Op{K: "handle", P: p, Ms: []string{"GET"}})
+	}
+	for _, p := range c03SplitPool {
+		ops = append(ops, Op{K: "remove", P: p})
+	}
+	return append(ops, Op{K: "clean"}, Op{K: "pclean", P: "/p/{x}/b"}, Op{K: "pclean", P: "/p/{x}/"}, Op{K: "remove", P: "/p/{x}/bc", Ms: []string{"GET"}})
+}
+
+func c03AlphabetOf(family int) []Op {
+	if family == 1 {
+		return c03SplitAlphabet()
+	}
+	return c03Alphabet()
+}
+
+func c03PathsOf(family int, ic ref.Interceptors) []string {
+	if family != 1 {
+		return c03Paths(ic)
+	}
+	// values that contain pieces of the literal text that follows the parameter
+	return []string{"/p/zz/bc", "/p/zz/bd", "/p/zz/b", "/p/7/bc", "/p/7/bd", "/p/zz", "/p/7", "/p/1/b/bc", "/p/1/b/bd", "/p/1/bd/bc", "/p/1/b/b", "/p/1/bc/bc", "/p/7/b/bc", "/p/1//bc", "/p/1/bcd", "/p/zz/"}
+}
+
 // simple witness values share no byte with any literal text of the pools.
 func simpleValue(t *ref.Token) string {
 	switch {
@@ -115,6 +145,7 @@ func c03Paths(ic ref.Interceptors) []string {
 
 type c03Cfg struct {
 	Router RouterCfg `json:"router"`
+	Family int       `json:"family,omitempty"`
 }
 
 type probeVec struct {
@@ -181,9 +212,9 @@ func c03Expand(raw json.RawMessage) (any, error) {
 	if err := json.Unmarshal(in.Cfg, &cfg); err != nil {
 		return nil, err
 	}
-	alpha := c03Alphabet()
+	alpha := c03AlphabetOf(cfg.Family)
 	ic := Interceptors(cfg.Router.IC)
-	paths := c03Paths(ic)
+	paths := c03PathsOf(cfg.Family, ic)
 	hist := make([]Op, len(in.History))
 	for i, k := range in.History {
 		hist[i] = alpha[k]
@@ -367,6 +398,8 @@ func init() {
 		for _, cfg := range []RouterCfg{{Lock: true}, {IC: "I2"}} {
 			explore.BFS(rc, "c03/expand", c03Cfg{Router: cfg}, depth-1, true, "C03 "+cfg.String())
 		}
+		// family 1: literal text after a parameter split between two routes, then one of them removed again
+		explore.BFS(rc, "c03/expand", c03Cfg{Router: RouterCfg{}, Family: 1}, depth+1, true, "C03 split literal suffix")
 		// no-dedup pass: every history literally enumerated
 		nd := 2
 		rc.Set("nodedup_depth", nd)
